@@ -108,12 +108,69 @@ let c09_oracle (t0 : int) (off : int) (ann : (string * string) list) (ops : op l
             (List.combine ordered expected);
           if !bad = "" then "pass" else "fail " ^ !bad))
 
+(* ---- snapshot oracles along a history (C06, C07, C18): what was logged so far vs. what a reader finds ---- *)
+let is_snapshot (o : string) = String.length o > 1 && o.[0] = 's' && o.[1] = '{'
+
+let snap_oracle (prop : string) (ops : op list) (obs : string list) : string =
+  if List.length ops <> List.length obs then "fail observation-shape" else
+  let logged = ref [] and cfg = ref None and live = ref false and flushed = ref true and last_snap = ref None in
+  let verdict = ref "" and checks = ref 0 in
+  let direct c = (c.c_cap = None) in
+  let check c snap after_stop =
+    incr checks;
+    let fail m = if !verdict = "" then verdict := m in
+    (match prop with
+     | "C06" ->
+       let never = (match c.c_rot with Some ((_, _), KNever) | None -> true | _ -> false) in
+       if never then (if not (oracle_all c !logged snap) then fail "stream-differs-from-all-runs-records")
+       else (if not (oracle_tail c !logged snap) then fail "stream-is-not-a-tail-of-all-runs-records")
+     | "C07" ->
+       if (not c.c_bg) || after_stop then begin
+         if not (oracle_tail c !logged snap) then fail "survivors-are-not-a-contiguous-tail"
+         else if not (oracle_limits c snap) then fail "more-files-than-the-cleanup-limits-allow"
+         else if (not after_stop) && not (oracle_current_plain c snap) then fail "current-file-compressed-or-missing"
+       end
+     | "C18" ->
+       if after_stop then begin
+         let files = List.filter_map (fun ((_, k), d) -> if int_of_n k = 0 then Some d else None) snap in
+         if not (oracle_tiles files !logged) then fail "files-do-not-tile-the-logged-records"
+       end
+     | _ -> ()) in
+  let prev_stop = ref false in
+  List.iter2 (fun op ob ->
+      (match op with
+       | OStart c ->
+         (match !last_snap with
+          | Some snap when !cfg = None -> logged := stream_of c snap
+          | _ -> ());
+         (match c.c_rot with None when not c.c_append && prop <> "C18" -> logged := [] | _ -> ());
+         cfg := Some c; live := true; flushed := true; prev_stop := false
+       | OReset c -> cfg := Some c; flushed := true
+       | OWrite b | OPlain b ->
+         if !live && ob = "r0" then (logged := !logged @ b;
+                                     match !cfg with Some c -> flushed := direct c | None -> ())
+       | OFlush | OShutdown -> flushed := true
+       | OReopen -> flushed := true
+       | OStop -> live := false; flushed := true; prev_stop := true
+       | OSnap ->
+         if is_snapshot ob then begin
+           let snap = parse_snapshot ob in
+           last_snap := Some snap;
+           (match !cfg with
+            | Some c when !flushed -> check c snap !prev_stop
+            | _ -> ())
+         end
+       | _ -> ());
+      (match op with OStop | OSnap -> () | _ -> prev_stop := false)) ops obs;
+  if !verdict <> "" then "fail " ^ !verdict else if !checks = 0 then "skip no-snapshot-checked" else "pass"
+
 let flw_oracle (prop : string) (case_toks : string list) (obs : string list) : string =
   let (pre, ops) = split_at_semicolon [] case_toks in
   let ann = annotations pre in
   let ops = List.map Flw_driver.op_of_string (List.filter (fun s -> s <> "") ops) in
   (* leading external creations (the start state) are allowed before B *)
   let rec strip = function (OExtCreate _ | OExtMkdir _) :: r -> strip r | l -> l in
+  if prop = "C06" || prop = "C07" || prop = "C18" then snap_oracle prop ops obs else
   if prop = "C09" then
     (match last_snapshot obs, case_toks with
      | Some files, t0 :: off :: _ -> c09_oracle (int_of_string t0) (int_of_string off) ann ops files
